@@ -35,7 +35,8 @@ unset CARGO_TARGET_DIR
 mut=/tmp/sv-repo
 git -C /repo worktree remove --force $mut 2>/dev/null
 git -C /repo worktree add -q --detach $mut HEAD || exit 2
-git -C $mut apply $src/patch.diff 2>/dev/null || git -C $mut apply -3 $src/patch.diff || { echo "PATCH DOES NOT APPLY TO HEAD"; git -C /repo worktree remove --force $mut; exit 2; }
+pfh=$src/patch.diff; [ -f $src/patch-head.diff ] && pfh=$src/patch-head.diff
+git -C $mut apply $pfh 2>/dev/null || git -C $mut apply -3 $pfh || { echo "PATCH DOES NOT APPLY TO HEAD"; git -C /repo worktree remove --force $mut; exit 2; }
 results=""
 for p in $props; do
   out=$(VERIF_REPO=$mut ./check $p --tier quick 2>&1 | grep -E "^(VIOLATION|OK|KNOWN)" | tail -1)
@@ -45,6 +46,7 @@ done
 git -C /repo worktree remove --force $mut
 mkdir -p seeded/$name
 cp $src/patch.diff seeded/$name/patch.diff; cp $src/$demo seeded/$name/$demo
+[ -f $src/patch-head.diff ] && cp $src/patch-head.diff seeded/$name/patch-head.diff
 python3 - "$src/meta.json" "seeded/$name/meta.json" "$results" "$props" "$base" <<'PY'
 import json,sys
 m=json.load(open(sys.argv[1]))
